@@ -272,9 +272,10 @@ std::string run_scenario(const std::map<std::string, std::string>& kv){
             for(const auto& s : sched) if(s.it == it){
                 cell_ptr c = lst[s.pos % lst.size()];
                 if(s.act == 'R'){
-                    // minimum volume just above the current volume: the cell is below it at the end of this iteration (a larger
-                    // value would also raise the target volume, i.e. the pressure, and blow the cell up before it is removed)
-                    auto t = std::make_shared<cell_type_parameters>(*c->get_cell_type()); t->min_vol_ = 1.05 * c->get_volume(); cell_tester::set_type(*c, t);
+                    // its own copy of the cell type with a minimum volume above any volume: the cell is below it at the end of
+                    // this iteration.  The target volume follows the minimum volume, so the pressure is capped to keep the
+                    // cell from blowing up during the one iteration it still lives.
+                    auto t = std::make_shared<cell_type_parameters>(*c->get_cell_type()); t->min_vol_ = 1e3; t->max_pressure_ = 10.; cell_tester::set_type(*c, t);
                 }
                 else if(s.act == 'D'){ cell_tester::set_division_volume(*c, 0.); }
             }
